@@ -147,6 +147,8 @@ def run_rule(job, ri, lis, listing_paths, tmp):
         else:
             o = run_pair(J, rule_path, macro_paths, inp, binary, job.get("fresh", False),
                          job.get("want_regex", False), job.get("stream_only", False), job.get("repeat", False))
+            if job.get("retry"):     # the same operation attempted a second time in the same process
+                o["retry"] = run_pair(J, rule_path, macro_paths, inp, binary, job.get("fresh", False))
         o["r"], o["l"] = ri, li
         out.append(o)
     for p in ([] if "rule_path" in rule else [rule_path]) + macro_paths[own:]:
